@@ -103,6 +103,10 @@ fn main() {
             }
             std::process::exit(if sub == "modes" { filesink::modes_child(&rest) } else { filesink::crash_child(&rest) });
         }
+        "c15-child" => {
+            let mode = opts.extra.first().cloned().unwrap_or_default();
+            std::process::exit(robust::child(&mode));
+        }
         "c18" => maps::main(&opts),
         "c18-child" => {
             let mode = opts.extra.first().cloned().unwrap_or_default();
